@@ -13,7 +13,7 @@ structure St where
   ms : Option MempoolLock.MS := none
 
 def chainOf (ih : Nat) (bs : List (List Tx)) : Chain :=
-  { ih := ih, txs := fun h => if h < ih then [] else bs.getD (h - ih) [] }
+  { ihPred := ih - 1, txs := fun h => if h < ih then [] else bs.getD (h - ih) [] }
 
 def parseBlock (s : String) : Option (List Tx) :=
   if s = "e" then some [] else (s.splitOn ".").mapM String.toNat?
@@ -28,6 +28,7 @@ def showCall : Call → String
   | .endBlock h => s!"E{h}"
   | .commit => "C"
   | .restart => "R"
+  | .restored h => s!"S{h}"
 
 def showOutcome : Outcome → String
   | .ok => "ok"
@@ -134,13 +135,7 @@ def step (st : St) (toks : List String) : St × String :=
   | "rollback" :: rest =>
     match (kv rest "n").bind String.toNat? with
     | some j =>
-      let a := st.sys.disk.app
-      -- the application comes back from a snapshot `j` commits older: it reports that snapshot's height
-      let hs := a.hash.take (a.hash.length - j)
-      let hgt := match hs.getLast? with
-        | some e => if e.1 = 0 then e.2.headD 0 else e.1
-        | none => 0
-      let a' : App := { (a.call .restart) with height := hgt, hash := hs }
+      let a' := st.sys.disk.app.restore j
       line st "rollback" { disk := { st.sys.disk with app := a' }, up := false, live := false }
     | none => (st, "bad-op")
   | "appextra" :: rest =>
@@ -171,15 +166,29 @@ def step (st : St) (toks : List String) : St × String :=
       let okList (s : String) (allowX : Bool) : Bool :=
         (splitComma s).all fun t => (allowX && t == "x") || t.toNat?.isSome
       if n < 1 ∨ n > 8 ∨ ih < 1 ∨ ih > 1000 ∨ (v ≠ "v0" ∧ v ≠ "v1") ∨ !okList fl true ∨ !okList tx false then (st, "bad-op") else
-      let c0 : Chain := { ih := ih, txs := fun _ => [] }
-      let ops := [Op.start none] ++ List.replicate n (Op.commit none) ++ [Op.commit (some 2)]
-      let s := runSys c0 genesis ops
-      let s' := stepSys c0 s (.start none)
-      let agree := (handshake c0 s.disk).outcome == .ok && s'.disk.app.height == s'.disk.storeH
+      let c0 : Chain := { ihPred := ih - 1, txs := fun _ => [] }
+      let exitH := ih + n
+      let fails : List (Option Nat) := (splitComma fl).map fun t => t.toNat?
+      let tri (x : Disk) : String := s!"{x.app.height}/{x.storeH}/{x.stateH}"
+      let showInc (d0 dEnd : Disk) (post : Option Disk) : String :=
+        let delta := (dEnd.app.journal.drop d0.app.journal.length).filter fun k => match k with | .deliver _ => false | _ => true
+        let js := if delta.isEmpty then "-" else ".".intercalate (delta.map showCall)
+        s!"{tri d0}>{match post with | some p => tri p | none => "-"}:{js}"
+      -- incarnations: one per fail index, then a last one without; a clean stop ends the sequence
+      let rec go (fs : List (Option Nat)) (d0 : Disk) (acc : List String) (fuel : Nat) : Disk × List String :=
+        match fuel with
+        | 0 => (d0, acc)
+        | fuel + 1 =>
+          let f := fs.headD none
+          let (dEnd, post, clean) := incarnation c0 d0 f exitH (n + 2)
+          let acc := acc ++ [showInc d0 dEnd post]
+          if clean ∨ fs.isEmpty then (dEnd, acc) else go fs.tail (crash dEnd) acc fuel
+      let (d, incs) := go fails genesis.disk [] (fails.length + 1)
+      let s' := stepSys c0 ⟨crash d, false, false⟩ (.start none)
+      let agree := (handshake c0 (crash d)).outcome == .ok && s'.disk.app.height == s'.disk.storeH
         && s'.disk.storeH == s'.disk.stateH && s'.disk.app.hash == s'.disk.stateHash
-      let d := s.disk
       (st, s!"done app={d.app.height} store={d.storeH} state={d.stateH} heq={b01 (d.app.hash == d.stateHash)} " ++
-        s!"wf={b01 (journalWF c0 d.app.journal)} hs={if agree then "agree" else "differ"}")
+        s!"wf={b01 (journalWF c0 d.app.journal)} hs={if agree then "agree" else "differ"} inc={";".intercalate incs}")
     | _, _, _, _, _ => (st, "bad-op")
   | "mp" :: rest =>
     match kv rest "ver", (kv rest "pool").bind String.toNat? with
